@@ -99,6 +99,14 @@ def _solve_group(args):
           else:
             r = r1
             r["note"] = "counter-model satisfies the integer part of the path condition; floating-point feasibility of that path was not established by the solver"
+      if r is None and ob.expect == "refutable" and ob.meta.get("sat_hints"):
+        # vacuity canary with suggested witnesses: a model of (assumptions and hint) is a model of the assumptions
+        for hint in ob.meta["sat_hints"]:
+          r2 = smt.check(list(ob.assumptions) + list(hint), ob.goal, timeout_ms=5000, seed=seed, backends=("z3api",), cone=False)
+          if r2["status"] == "sat":
+            r = r2
+            r["backend"] = str(r.get("backend")) + " (witness suggested by the contract)"
+            break
       if r is None:
         r = smt.check(ob.assumptions, ob.goal, timeout_ms=ob.meta.get("timeout_ms", timeout), seed=seed, cone=(ob.expect != "refutable"), sat_first=(ob.expect == "refutable"))
     except Exception:
